@@ -100,4 +100,16 @@ theorem tie_keys :
     Generated.C13.annotationExtendedResourceSpec = bytes "node.koordinator.sh/extended-resource-spec" ∧
     Generated.C13.annotationSkipUpdateResource = bytes "config.koordinator.sh/skip-update-resources" := by decide
 
+/-- handleCreate runs the colocation-profile step before the summary-annotation step (the model's
+    `admitCreate`; the harness calls the two steps in this order). -/
+theorem tie_handle_create_order :
+    Generated.C13.handleCreateSteps.take 2 = ["clusterColocationProfileMutatingPod", "extendedResourceSpecMutatingPod"] := by decide
+
+/-- doMutateByColocationProfile applies the modelled profile fields in the order of `applyProfile`:
+    labels, labelKeysMapping, labelSuffixes, qosClass, priorityClassName, koordinatorPriority, patch. -/
+theorem tie_profile_field_order :
+    Generated.C13.profileFieldOrder.filter (fun f => ["Labels", "LabelKeysMapping", "LabelSuffixes", "QoSClass",
+        "PriorityClassName", "KoordinatorPriority", "Patch"].contains f) =
+      ["Labels", "LabelKeysMapping", "LabelSuffixes", "QoSClass", "PriorityClassName", "KoordinatorPriority", "Patch"] := by decide
+
 end KoordVerif.C13
